@@ -150,7 +150,7 @@ theorem C15_consistent_median (α : K) (d : List (Obs K)) (hne : d ≠ []) (t : 
     (ht1 : qLower (1 / 2) d ≤ t) (ht2 : t ≤ qUpper (1 / 2) d) (η c : K) :
     (d.map fun o => elemVal .median α η o.1 t).sum
       ≤ (d.map fun o => elemVal .median α η o.1 c).sum :=
-  elemVal_consistent_quantile (1 / 2) half_pos' half_lt_one' η t c d hne ht1 ht2
+  elemVal_consistent_quantile (1 / 2) ident_half_pos' half_lt_one' η t c d hne ht1 ht2
 
 /-- with the old formula this fails for `η` at a data value: sample `{0, 1}`, level 1/2, `η = 1`.
 `1` is a median (it is `qUpper`), but predicting `1` costs `1/2 + 0` while predicting `0` costs
